@@ -197,7 +197,7 @@ func c15cGen(rt *rapid.T) c15cCase {
 }
 
 func TestVerif_C15_container(t *testing.T) {
-	kit.Run(t, "C15", "container", kit.Opts{Quick: 6000, Thorough: 320000}, c15cGen, c15cInterp)
+	kit.Run(t, "C15", "container", kit.Opts{Quick: 6000, Thorough: 160000}, c15cGen, c15cInterp)
 }
 
 // Parallel writers on disjoint keys with a concurrent reader: the final value
